@@ -301,3 +301,9 @@ package core
 //@ ghost field limited bool
 //@ extern net/http.MaxBytesReader(w, r, n)
 //@   ensures res != nil && fresh(res) && ghost(res).limited
+
+// net/http client: "On error, any Response can be ignored"; on success the response and its Body are non-nil
+//@ extern (*net/http.Client).Do(req)
+//@   trusted
+//@   modifies ghost remaining, ghost backing
+//@   ensures res1 == nil ==> res0 != nil && res0.Body != nil && res0.Header != nil
